@@ -21,11 +21,18 @@ that the solver sees the un-normalised term; used for cross-validation.
 import itertools
 
 RAW = False
+NOLUT = False
 
 
 def set_raw(v):
     global RAW
     RAW = bool(v)
+
+
+def set_nolut(v):
+    """keep every rewrite except lut folding/composition (the solver then has to do the table reasoning)"""
+    global NOLUT
+    NOLUT = bool(v)
 
 
 class Term:
@@ -220,7 +227,7 @@ def lut(tbl, base, w):
         return tbl[base] & _mask(w)
     assert base.w <= 8 and len(tbl) == (1 << base.w), (base, len(tbl))
     if not RAW:
-        if base.op == 'lut':
+        if base.op == 'lut' and not NOLUT:
             inner = base.val
             return lut([tbl[v] for v in inner], base.args[0], w)
         feas = [tbl[i] & _mask(w) for i in range(len(tbl)) if _feasible(base, i)]
@@ -241,7 +248,7 @@ def lut(tbl, base, w):
 
 def _fold2(fn, w_out, a, wa, b, wb):
     """Try to express fn(a, b) as a lut over a common <=8-bit base."""
-    if RAW:
+    if RAW or NOLUT:
         return None
     base = _lut_base(a)
     if base is None:
@@ -265,7 +272,7 @@ def _as_fn_of_z(x, w, base):
 
 
 def _fold1(fn, w_out, a, wa):
-    if RAW:
+    if RAW or NOLUT:
         return None
     if isinstance(a, Term) and a.op == 'lut':
         return lut([fn(v) for v in a.val], a.args[0], w_out)
@@ -331,7 +338,7 @@ def _ac(op, w, xs):
         bybase = {}
         rest = []
         for t in out:
-            if t.op == 'lut':
+            if t.op == 'lut' and not NOLUT:
                 bybase.setdefault(t.args[0].id, []).append(t)
             else:
                 rest.append(t)
@@ -363,7 +370,7 @@ def _ac(op, w, xs):
     if not out:
         return acc
     # fold constant into single lut
-    if len(out) == 1 and out[0].op == 'lut':
+    if len(out) == 1 and out[0].op == 'lut' and not NOLUT:
         ident = 0 if op in ('xor', 'or') else m
         if acc != ident:
             f = {'xor': lambda v: v ^ acc, 'and': lambda v: v & acc, 'or': lambda v: v | acc}[op]
@@ -524,6 +531,9 @@ def udiv(w, a, b):
         if not isinstance(b, Term) and (b & m) == 1:
             return a
         if not isinstance(b, Term) and b:
+            ka = max(umax(a, w).bit_length(), (b & m).bit_length())
+            if ka + 8 <= w and isinstance(a, Term):
+                return zext(ka, w, udiv(ka, trunc(w, ka, a), b & m))
             hi = (umax(a, w) // b).bit_length()
             k0 = m & ~_mask(hi)
         else:
@@ -545,6 +555,10 @@ def urem(w, a, b):
                 return band(w, a, b - 1)
             if umax(a, w) < b:
                 return a
+            ka = max(umax(a, w).bit_length(), b.bit_length())
+            if ka + 8 <= w and isinstance(a, Term):
+                # both operands fit in ka bits: compute narrow, extend (keeps bit-blasted dividers small)
+                return zext(ka, w, urem(ka, trunc(w, ka, a), b))
             hi = (b - 1).bit_length()
             k0 = m & ~_mask(hi)
         else:
@@ -660,7 +674,7 @@ def zext(w_from, w_to, a):
     if not RAW:
         if a.op == 'zext':
             return zext(a.args[0].w, w_to, a.args[0])
-        if a.op == 'lut':
+        if a.op == 'lut' and not NOLUT:
             return lut(list(a.val), a.args[0], w_to)
     hi = _mask(w_to) & ~_mask(w_from)
     return _fin('zext', w_to, (a,), None, a.k0 | hi, a.k1)
@@ -692,7 +706,7 @@ def trunc(w_from, w_to, a):
                 return trunc(inner.w, w_to, inner)
             if a.op == 'zext':
                 return zext(inner.w, w_to, inner)
-        if a.op == 'lut':
+        if a.op == 'lut' and not NOLUT:
             return lut([v & m for v in a.val], a.args[0], w_to)
         if a.op in ('xor', 'and', 'or'):
             return _ac(a.op, w_to, [trunc(w_from, w_to, x) for x in a.args])
@@ -861,12 +875,14 @@ def ite(w, c, a, b):
         if not isinstance(b, Term):
             return bor(1, bnot(1, c), a) if b & 1 else band(1, c, a)
     # lut folding
-    base = _lut_base(a)
-    if base is None:
-        base = _lut_base(b)
-    if base is None:
-        base = _lut_base(c)
-    if base is None and c.op == 'eq':
+    base = None
+    if not NOLUT:
+        base = _lut_base(a)
+        if base is None:
+            base = _lut_base(b)
+        if base is None:
+            base = _lut_base(c)
+    if base is None and c.op == 'eq' and not NOLUT:
         for x in c.args:
             if x.op != 'const' and x.w <= 8 and (_lut_base(a) is x or _lut_base(b) is x):
                 base = x
@@ -928,8 +944,12 @@ def select_const(tbl, w_elem, idx, w_idx):
             base = idx.args[0]
         elif idx.w <= 8:
             base = idx
+        if base is None and umax(idx, w_idx) < 256:
+            base = trunc(w_idx, 8, idx)
+            if not isinstance(base, Term):
+                return tbl[base] & _mask(w_elem)
         if base is not None:
-            if base.op == 'lut':
+            if base.op == 'lut' and not NOLUT:
                 inner = base.val
                 return lut([tbl[v] if v < n else 0 for v in inner], base.args[0], w_elem)
             size = 1 << base.w
